@@ -53,6 +53,7 @@ type Contract struct {
 	Findings []*FindingSplit
 	Witness  []*Clause
 	Uses     []string
+	RepInvs  []*Clause
 }
 
 // FindingSplit: a known finding attached to an ensures/site label; Disc is the
@@ -109,7 +110,7 @@ type Contracts struct {
 	Lines   int
 }
 
-var kwRe = regexp.MustCompile(`^(func|prop|requires|ensures|modifies|loop|site|trusted|inline|let|pure|axiom|lemma|invariant|nopanic|maypanic|finding|ispure|witness|uses)\b`)
+var kwRe = regexp.MustCompile(`^(func|prop|requires|ensures|modifies|loop|site|trusted|inline|let|pure|axiom|lemma|invariant|nopanic|maypanic|finding|ispure|witness|uses|repinv)\b`)
 
 func LoadContracts(p *Program) (*Contracts, error) {
 	cs := &Contracts{Fns: map[string]*Contract{}, Pures: map[string]*PureFn{}, RepInvs: map[string]*RepInv{}}
@@ -289,6 +290,12 @@ func (cs *Contracts) parseFile(path string, pkg *types.Package) error {
 				return fail(rc, "%v", err)
 			}
 			cur.Witness = append(cur.Witness, &Clause{Expr: e, Src: rest, File: path, Line: rc.line})
+		case "repinv":
+			c, err := mkClause(rc, rest)
+			if err != nil {
+				return err
+			}
+			cur.RepInvs = append(cur.RepInvs, c)
 		case "uses":
 			cur.Uses = append(cur.Uses, strings.Fields(rest)...)
 		case "trusted":
